@@ -19,7 +19,7 @@ use {
     failspot::failspot,
     nix::{
         errno::Errno,
-        sys::{ptrace, signal, wait},
+        sys::{ptrace, signal},
     },
     procfs_core::{
         process::{MMPermissions, ProcState, Stat},
@@ -255,38 +255,48 @@ impl PtraceDumper {
         #[cfg(feature = "verif-hooks")]
         crate::verif_hooks::sync(crate::verif_hooks::Point::Attached(child));
         loop {
-            match wait::waitpid(pid, Some(wait::WaitPidFlag::__WALL)) {
-                Ok(status) => {
-                    let wait::WaitStatus::Stopped(_, status) = status else {
-                        return Err(DumperError::WaitPidError(
-                            child,
-                            nix::errno::Errno::UnknownErrno,
-                        ));
-                    };
-
-                    // Any signal will stop the thread, make sure it is SIGSTOP. Otherwise, this
-                    // signal will be delivered after PTRACE_DETACH, and the thread will enter
-                    // the "T (stopped)" state.
-                    if status == nix::sys::signal::SIGSTOP {
-                        break;
-                    }
-
-                    // Signals other than SIGSTOP that are received need to be reinjected,
-                    // or they will otherwise get lost.
-                    #[cfg(feature = "verif-hooks")]
-                    crate::verif_hooks::sync(crate::verif_hooks::Point::Reinjected(
-                        child,
-                        status as i32,
-                    ));
-                    if let Err(err) = ptrace::cont(pid, status) {
-                        return Err(DumperError::WaitPidError(child, err));
+            // The raw syscall rather than nix's `waitpid`: nix's `WaitStatus` cannot represent a
+            // stop caused by a realtime signal (it fails with EINVAL and the status is gone), and
+            // such a signal has to be reinjected like any other.
+            let mut raw_status: libc::c_int = 0;
+            if unsafe { libc::waitpid(child, &mut raw_status, libc::__WALL) } < 0 {
+                match Errno::last() {
+                    Errno::EINTR => continue,
+                    e => {
+                        ptrace_detach(child)?;
+                        return Err(DumperError::WaitPidError(child, e));
                     }
                 }
-                Err(Errno::EINTR) => continue,
-                Err(e) => {
-                    ptrace_detach(child)?;
-                    return Err(DumperError::WaitPidError(child, e));
-                }
+            }
+            if !libc::WIFSTOPPED(raw_status) {
+                return Err(DumperError::WaitPidError(
+                    child,
+                    nix::errno::Errno::UnknownErrno,
+                ));
+            }
+            let status = libc::WSTOPSIG(raw_status);
+
+            // Any signal will stop the thread, make sure it is SIGSTOP. Otherwise, this
+            // signal will be delivered after PTRACE_DETACH, and the thread will enter
+            // the "T (stopped)" state.
+            if status == libc::SIGSTOP {
+                break;
+            }
+
+            // Signals other than SIGSTOP that are received need to be reinjected,
+            // or they will otherwise get lost.
+            #[cfg(feature = "verif-hooks")]
+            crate::verif_hooks::sync(crate::verif_hooks::Point::Reinjected(child, status));
+            let res = unsafe {
+                libc::ptrace(
+                    libc::PTRACE_CONT,
+                    child,
+                    std::ptr::null_mut::<libc::c_void>(),
+                    status as libc::c_long,
+                )
+            };
+            if res < 0 {
+                return Err(DumperError::WaitPidError(child, Errno::last()));
             }
         }
         #[cfg(any(target_arch = "x86", target_arch = "x86_64"))]
